@@ -345,9 +345,13 @@ pub fn sdk_client(wire: Wiretap, path_style: bool) -> aws_sdk_s3::Client {
 }
 
 pub fn sdk_client_at(wire: Wiretap, path_style: bool, domain: &str) -> aws_sdk_s3::Client {
+    sdk_client_with(wire, path_style, domain, ACCESS_KEY, SECRET_KEY)
+}
+
+pub fn sdk_client_with(wire: Wiretap, path_style: bool, domain: &str, ak: &str, sk: &str) -> aws_sdk_s3::Client {
     let conf = aws_sdk_s3::Config::builder()
         .behavior_version_latest()
-        .credentials_provider(Credentials::new(ACCESS_KEY, SECRET_KEY, None, None, "verif"))
+        .credentials_provider(Credentials::new(ak, sk, None, None, "verif"))
         .region(Region::new(REGION))
         .endpoint_url(format!("http://{domain}"))
         .force_path_style(path_style)
